@@ -288,10 +288,10 @@ def main():
             print("VIOLATION property=%s replay=%s" % (PROP, args.replay))
         sys.exit(1 if ok else 0)
     quick = args.tier == "quick"
-    K = 6 if quick else 24
+    K = 8 if quick else 24
     n_crash = 3 if quick else 10
-    budget = check.budget(75, 1500)
-    max_cases = 70 if quick else 100000
+    budget = check.budget(120, 1500)
+    max_cases = 160 if quick else 100000
     totals = {"runs": 0, "accepted": 0, "rejected_with_diagnostics": 0, "with_versions": 0, "invalid": 0,
               "crash_points": 0, "crash_left_torn_file": 0, "crash_left_same_size_torn_file": 0, "warnings_seen": 0,
               "dirty_starts": 0, "dirty_same_size_stale_file": 0}
